@@ -21,8 +21,15 @@ LAYOUTS = {
     "two": lambda rel, i: ("/src1/" if i % 2 == 0 else "/src2/q/") + rel.split("/")[-1],
     "mirror": lambda rel, i: "/src/" + rel,                 # same structure as the torrent
     "named-dir": lambda rel, i: "/src/%s/%s" % (rel.split("/")[-1], rel.split("/")[-1]),   # inside a directory named like the file
+    # relations between the search paths themselves
+    "prefix": lambda rel, i: ("/pool/disk1/" if i % 2 == 0 else "/pool/disk10/") + rel.split("/")[-1],   # one path is a string prefix of the other
+    "nested": lambda rel, i: ("/src/x/y/" if i % 2 == 0 else "/src/") + rel.split("/")[-1],             # one search path inside the other
+    "repeat": lambda rel, i: "/src/" + rel.split("/")[-1],                                               # the same path given twice
+    "spelled": lambda rel, i: ("/src1/" if i % 2 == 0 else "/src2/q/") + rel.split("/")[-1],             # trailing separator / dot segments
 }
-SEARCH = {"flat": ["/src"], "deep": ["/src"], "two": ["/src1", "/src2"], "mirror": ["/src"], "named-dir": ["/src"]}
+SEARCH = {"flat": ["/src"], "deep": ["/src"], "two": ["/src1", "/src2"], "mirror": ["/src"], "named-dir": ["/src"],
+          "prefix": ["/pool/disk1", "/pool/disk10"], "nested": ["/src", "/src/x/y"], "repeat": ["/src", "/src"],
+          "spelled": ["/src1/", "/src2/q/../../src2"]}
 
 
 def build_world(E, version, shape, P, K, layout, decoy="none", dest_pre="empty", order="reversed", lo=0, names=None,
